@@ -1,12 +1,13 @@
 (* C01 — convergence at quiescence. Property theorems only. *)
 From Coq Require Import List Arith.
 From RG Require Import Comp.Conv.
-From RG Require Comp.Core Proofs.CoreProofs.
+From RG Require Comp.Core Proofs.CoreProofsABC Proofs.CoreProofsDEF.
 Import ListNotations.
 
 (* One cached resource, any number of subscribers, every interleaving of service mutations, the get answer,
-   cache-worker steps, connection-worker steps, queue/unqueue toggles and late snapshots: in every reachable
-   quiescent state each subscribed connection has loaded the resource and the copy it holds (snapshot plus every
+   cache-worker steps, connection-worker steps, queue/unqueue toggles, late snapshots, disposal of subscriptions and closing
+   connections: in every reachable
+   quiescent state each subscribed connection whose subscription was not disposed has loaded the resource and the copy it holds (snapshot plus every
    event delivered since) IS the state the service last announced; the cache holds the same value.
    (val/upd/app/norm are abstract: any value type, any update type whose no-op filter `norm` is sound.) *)
 Theorem C01_single_resource_convergence :
@@ -15,30 +16,46 @@ Theorem C01_single_resource_convergence :
   (forall u v u', norm u v = Some u' -> app u' v = app u v) ->
   forall t acts s,
   let σ := run val upd app norm d t acts in
-  quiescent val upd σ -> subscribed val upd (subs val upd σ s) = true ->
+  quiescent val upd σ -> subscribed val upd (subs val upd σ s) = true -> gone val upd (subs val upd σ s) = false ->
   loaded val upd (subs val upd σ s) = true /\ sval val upd (subs val upd σ s) = truth val upd σ /\ rs_val val upd σ = truth val upd σ.
 Proof. exact single_resource_convergence. Qed.
 Print Assumptions C01_single_resource_convergence.
 
-(* The integrated model Comp/Core.v (any number of connections, one flat resource; subscribe requests with their access and
-   get requests, change and custom events, both kinds of task queue; run in lock-step with the real gateway on every check):
-   for every sequence of stimuli and scheduler grants, when nothing is left to do - both kinds of queue empty, every request
-   the gateway sent answered - the copy a client rebuilds from the frames it was sent (the response's snapshot, then every
-   change event applied in order) is the state the service last announced, for every connection that asked. *)
+(* The integrated model Comp/Core.v (any number of connections, one flat resource; subscribe / unsubscribe requests, access
+   answers that grant or deny, the get request, events, disconnects, both kinds of task queue; run in lock-step with the real
+   gateway on every check): for every sequence of stimuli and scheduler grants, when nothing is left to do - both kinds of
+   queue empty, every request the gateway sent answered - the copy a client keeps from the frames it was sent alone (the
+   snapshot of a response that carried the resource, every change event applied in order, dropped when its subscription
+   count returns to zero) is the state the service last announced, for every connected client that holds a subscription and was never
+   acknowledged an unsubscribe of more subscriptions than it held (the next theorem shows what happens otherwise). *)
 Theorem C01_core_client_copy_converges :
   forall (val upd : Type) (app : upd -> val -> val) (norm : upd -> val -> option upd) (d : val),
   (forall u v, norm u v = None -> app u v = v) ->
   (forall u v u', norm u v = Some u' -> app u' v = app u v) ->
   forall t ops c,
   let s := fst (Core.exec val upd app norm d t ops) in let outs := snd (Core.exec val upd app norm d t ops) in
-  Core.quiescent val upd s -> Core.asked (Core.conns val upd s c) = true ->
-  Core.view val upd app c outs = Some (Conv.truth val upd (Core.cv val upd s)).
-Proof. exact CoreProofs.core_convergence. Qed.
+  Core.quiescent val upd s -> Core.disc (Core.conns val upd s c) = false -> Core.no_underflow val upd app c outs ->
+  0 < Core.lcnt val (Core.client val upd app c outs) ->
+  Core.lcopy val (Core.client val upd app c outs) = Some (Conv.truth val upd (Core.cv val upd s)).
+Proof. exact CoreProofsABC.core_convergence. Qed.
 Print Assumptions C01_core_client_copy_converges.
 
 (* Every reachable state of the integrated model is a reachable state of the single-resource core, so its invariant holds. *)
 Theorem C01_core_refines_conv :
   forall (val upd : Type) (app : upd -> val -> val) (norm : upd -> val -> option upd) (d : val) t ops,
   exists acts, Core.cv val upd (fst (Core.exec val upd app norm d t ops)) = Conv.run val upd app norm d t acts.
-Proof. exact CoreProofs.core_reachable_conv. Qed.
+Proof. exact CoreProofsABC.core_reachable_conv. Qed.
 Print Assumptions C01_core_refines_conv.
+
+(* Without that premise the statement is false of the unchanged code (recorded finding KF-PENDING-DROPPED in the accounting):
+   an unsubscribe request that meets subscribe requests still waiting for their answers is granted against them; the client
+   then counts one subscription more than the gateway, a later unsubscribe disposes the Subscription object while the client
+   still holds one, and the client's copy stops following the service. Model and code agree on such histories (`core` stage). *)
+Theorem C01_core_convergence_without_premise_refuted :
+  exists ops : list (Core.op nat),
+    let s := fst (Core.exec nat nat Nat.add (fun u _ => Some u) 0 100 ops) in
+    let outs := snd (Core.exec nat nat Nat.add (fun u _ => Some u) 0 100 ops) in
+    Core.quiescent nat nat s /\ Core.disc (Core.conns nat nat s 0) = false /\ 0 < Core.lcnt nat (Core.client nat nat Nat.add 0 outs) /\
+    Core.lcopy nat (Core.client nat nat Nat.add 0 outs) <> Some (Conv.truth nat nat (Core.cv nat nat s)).
+Proof. exact CoreProofsABC.core_convergence_refuted. Qed.
+Print Assumptions C01_core_convergence_without_premise_refuted.
